@@ -16,6 +16,11 @@ use std::time::{Duration, Instant};
 
 pub const VERIF_ROOT: &str = "/verif";
 
+/// where evidence/ and failures/ are written (default /verif; mutant runs set VERIF_OUT elsewhere)
+pub fn out_root() -> PathBuf {
+    std::env::var_os("VERIF_OUT").map(PathBuf::from).unwrap_or_else(|| PathBuf::from(VERIF_ROOT))
+}
+
 #[derive(Clone, Debug, PartialEq)]
 pub enum Verdict {
     Pass,
@@ -269,7 +274,15 @@ fn install_panic_hook() {
         std::panic::set_hook(Box::new(move |info| {
             let loc = info
                 .location()
-                .map(|l| format!("{}:{}", l.file().trim_start_matches("/repo/"), l.line()))
+                .map(|l| {
+                    let f = l.file();
+                    // normalise "/repo/gix-x/src/a.rs" and "<worktree>/gix-x/src/a.rs" to "gix-x/src/a.rs"
+                    let f = match f.find("/gix") {
+                        Some(i) if !f.contains("/.cargo/") => &f[i + 1..],
+                        _ => f,
+                    };
+                    format!("{}:{}", f, l.line())
+                })
                 .unwrap_or_else(|| "unknown".into());
             let msg = if let Some(s) = info.payload().downcast_ref::<&str>() {
                 s.to_string()
@@ -774,7 +787,7 @@ impl Check {
                 "wall_s": wall,
                 "violations": n_viol,
             });
-            let dir = Path::new(VERIF_ROOT).join("evidence");
+            let dir = out_root().join("evidence");
             let _ = std::fs::create_dir_all(&dir);
             let p = dir.join(format!("{}.json", self.id));
             if let Err(e) = std::fs::write(&p, serde_json::to_string_pretty(&ev).unwrap() + "\n") {
@@ -1273,7 +1286,7 @@ fn load_known(id: &str) -> Vec<Known> {
 }
 
 fn write_failure(id: &str, sub: &str, sig: &str, msg: &str, tape: &[u8]) -> PathBuf {
-    let dir = Path::new(VERIF_ROOT).join("failures").join(id);
+    let dir = out_root().join("failures").join(id);
     let _ = std::fs::create_dir_all(&dir);
     let h = hash_bytes(tape);
     let p = dir.join(format!("{}-{:016x}.case", sub, h));
